@@ -184,9 +184,11 @@ class IndependentSubcircuitsJob(AbstractJob):
     """Job for circuit with subcircuits that are independent"""
 
     def execute(self):
-        w = IndependentSubcircuitsEmulatorWalker(self.traces, self.subcircuits)
+        # Every execution counts its own readouts only
+        subcircuits = [sc._without_readouts() for sc in self.subcircuits]
+        w = IndependentSubcircuitsEmulatorWalker(self.traces, subcircuits)
         w.visit(self.circuit)
-        return ExecutionResult(self.subcircuits, w.results)
+        return ExecutionResult(subcircuits, w.results)
 
 
 class IndependentSubcircuitsBackend(AbstractBackend):
